@@ -23,6 +23,12 @@ META = {
 T6 = ["input", "buf", "and", "bb_input", "bb_output", "0"]
 
 
+def uni(n):
+    """ordered universe; the names contain one another as substrings in both directions of the order (n1 < n12 > n2 < n21 > n),
+    as N1 / N12 / N21 do in real netlists, so a str argument treated as a container of characters shows"""
+    return ["n1", "n12", "n2", "n21", "n", "n121"][:n]
+
+
 def queries(U, dag):
     qs = []
     singles = list(U)
@@ -48,20 +54,20 @@ def all_cases(ctx):
     cs = []
     if ctx.quick:
         # the custom longest-path visit is order sensitive: depth functions also on all DAGs over 5 ordered names
-        U5 = [f"n{i}" for i in range(5)]
-        for q in (("fanout_depth", "n0"), ("fanin_depth", "n4")):
+        U5 = uni(5)
+        for q in (("fanout_depth", U5[0]), ("fanin_depth", U5[4])):
             sb = 6
             for k in [int(format(k, f"0{sb}b")[::-1], 2) for k in range(1 << sb)]:
                 cs.append(((True, 5, q[0], repr(q[1]), k), (True, U5, q, sb, k)))
     if not ctx.quick:
         # depth functions on ALL DAGs over 6 ordered names (32768 edge patterns): the custom longest-path visit is order sensitive
-        U6 = [f"n{i}" for i in range(6)]
-        for q in (("fanout_depth", "n0"), ("fanin_depth", "n5"), ("fanout_depth", ["n0", "n1"])):
+        U6 = uni(6)
+        for q in (("fanout_depth", U6[0]), ("fanin_depth", U6[5]), ("fanout_depth", [U6[0], U6[1]])):
             sb = 10
             for k in [int(format(k, f"0{sb}b")[::-1], 2) for k in range(1 << sb)]:
                 cs.append(((True, 6, q[0], repr(q[1]), k), (True, U6, q, sb, k)))
     for dag, n in ((True, N), (False, M)):
-        U = [f"n{i}" for i in range(n)]
+        U = uni(n)
         for q in queries(U, dag):
             sb = (5 if ctx.quick else 8) if q[0] in ("endpoints", "startpoints", "levelize") else (0 if ctx.quick else 4)
             for k in [int(format(k, f"0{sb}b")[::-1], 2) if sb else 0 for k in range(1 << sb)]:
